@@ -217,3 +217,20 @@ package interp
 //@   opt opaque-havoc = none
 //@   requires [assume] f != nil && n != nil && fr != nil
 //@   ensures [local:fr2] one-frame-per-call: fresh(fr2)
+
+// getMapType (callBin): for host functions with an entry in interp.mapTypes the interface an interpreted
+// argument is wrapped as is the FIRST interface of the function's list that the argument's type implements
+// (the lists are ordered by priority: Formatter before Stringer, Marshaler before TextMarshaler); nil when
+// it implements none.
+//@ trusted func (t *itype) implements(it) (r)
+//@   ensures for-a-host-type-only-the-reflect-type-matters: it.cat == valueT ==> r == implementsRT(t, it.rtype)
+//@ lit callBin var:getMapType (typ) (r)
+//@   props C07
+//@   opt safety = off
+//@   opt opaque-havoc = none
+//@   requires [assume] typ != nil
+//@   ensures first-listed-interface-wins: forall(j, 0, len(lr), forall(k, 0, j, !implementsRT(typ, lr[k])) && implementsRT(typ, lr[j]) ==> r == lr[j])
+//@   ensures none-implemented-gives-nil: forall(k, 0, len(lr), !implementsRT(typ, lr[k])) ==> r == nil
+//@   loop 1 index i
+//@   invariant no-earlier-interface-is-implemented: forall(k, 0, i, !implementsRT(typ, lr[k]))
+//@   canary r == nil
